@@ -60,17 +60,24 @@ type instr struct {
 // Virtual clock. time.Now / Since / Until / Sleep / After / AfterFunc in flamego's sources become
 // simTime.Now / ... (a package-level value of the instrumented copy whose methods ask the
 // simulator when one is installed), so that any timer the framework arms reads simulated time
-// and its callback runs as a task the scheduler places. time.NewTimer, Ticker and
-// context.WithTimeout are left on the wall clock (said in DESIGN.md).
+// and its callback runs as a task the scheduler places. time.NewTimer and Ticker are left on the
+// wall clock (said in DESIGN.md).
 var clockFuncs = map[string]bool{"Now": true, "Since": true, "Until": true, "Sleep": true, "After": true, "AfterFunc": true}
 
-func (in *instr) routeClock(f *ast.File) (localName string) {
+// Deadlines: context.WithTimeout / WithDeadline become simCtx.WithTimeout / WithDeadline, contexts
+// whose deadline is a virtual timer (Done closes, Err reports DeadlineExceeded, when the simulated
+// clock gets there).
+var ctxFuncs = map[string]bool{"WithTimeout": true, "WithDeadline": true}
+
+// routeClock returns, per routed package, the local import name and a member that keeps the import used.
+func (in *instr) routeClock(f *ast.File) (keep [][2]string) {
 	if in.uses == nil {
-		return ""
+		return nil
 	}
+	seen := map[string]bool{}
 	ast.Inspect(f, func(n ast.Node) bool {
 		sel, ok := n.(*ast.SelectorExpr)
-		if !ok || !clockFuncs[sel.Sel.Name] {
+		if !ok {
 			return true
 		}
 		id, ok := sel.X.(*ast.Ident)
@@ -78,15 +85,28 @@ func (in *instr) routeClock(f *ast.File) (localName string) {
 			return true
 		}
 		pn, ok := in.uses[id].(*types.PkgName)
-		if !ok || pn.Imported().Path() != "time" {
+		if !ok {
 			return true
 		}
-		localName = id.Name
-		sel.X = ast.NewIdent("simTime")
-		in.clocked++
+		switch {
+		case pn.Imported().Path() == "time" && clockFuncs[sel.Sel.Name]:
+			if !seen[id.Name] {
+				seen[id.Name] = true
+				keep = append(keep, [2]string{id.Name, "Nanosecond"})
+			}
+			sel.X = ast.NewIdent("simTime")
+			in.clocked++
+		case pn.Imported().Path() == "context" && ctxFuncs[sel.Sel.Name]:
+			if !seen[id.Name] {
+				seen[id.Name] = true
+				keep = append(keep, [2]string{id.Name, "Background"})
+			}
+			sel.X = ast.NewIdent("simCtx")
+			in.clocked++
+		}
 		return true
 	})
-	return localName
+	return keep
 }
 
 // Known map types from other packages, by their unqualified name.
@@ -445,7 +465,11 @@ func (in *instr) wrapStmt(s ast.Stmt) {
 
 const simTimeSrc = `
 
-import "time"
+import (
+	simstdctx "context"
+	"sync"
+	"time"
+)
 
 // SimClockFuncs is the virtual clock of the simulator (instrumented builds only).
 type SimClockFuncs struct {
@@ -488,6 +512,63 @@ func (simTimeT) AfterFunc(d time.Duration, f func()) *time.Timer {
 		return SimClock.AfterFunc(d, f)
 	}
 	return time.AfterFunc(d, f)
+}
+
+type simCtxT struct{}
+
+var simCtx simCtxT
+
+func (simCtxT) WithTimeout(parent simstdctx.Context, d time.Duration) (simstdctx.Context, simstdctx.CancelFunc) {
+	if SimClock.AfterFunc == nil {
+		return simstdctx.WithTimeout(parent, d)
+	}
+	return simDeadlineCtx(parent, simTime.Now().Add(d), d)
+}
+
+func (simCtxT) WithDeadline(parent simstdctx.Context, t time.Time) (simstdctx.Context, simstdctx.CancelFunc) {
+	if SimClock.AfterFunc == nil {
+		return simstdctx.WithDeadline(parent, t)
+	}
+	return simDeadlineCtx(parent, t, t.Sub(simTime.Now()))
+}
+
+// simTimerCtx is a context whose deadline is a timer of the virtual clock.
+type simTimerCtx struct {
+	simstdctx.Context
+	deadline time.Time
+	mu       sync.Mutex
+	err      error
+}
+
+func (c *simTimerCtx) Deadline() (time.Time, bool) { return c.deadline, true }
+
+func (c *simTimerCtx) Err() error {
+	c.mu.Lock()
+	defer c.mu.Unlock()
+	if c.err != nil {
+		return c.err
+	}
+	return c.Context.Err()
+}
+
+func (c *simTimerCtx) expire() {
+	c.mu.Lock()
+	if c.err == nil && c.Context.Err() == nil {
+		c.err = simstdctx.DeadlineExceeded
+	}
+	c.mu.Unlock()
+}
+
+func simDeadlineCtx(parent simstdctx.Context, deadline time.Time, d time.Duration) (simstdctx.Context, simstdctx.CancelFunc) {
+	inner, cancelInner := simstdctx.WithCancel(parent)
+	c := &simTimerCtx{Context: inner, deadline: deadline}
+	if d <= 0 {
+		c.expire()
+		cancelInner()
+		return c, func() {}
+	}
+	t := SimClock.AfterFunc(d, func() { c.expire(); cancelInner() })
+	return c, func() { t.Stop(); cancelInner() }
 }
 ` + "\n"
 
@@ -561,10 +642,10 @@ func main() {
 			src := filepath.Join(dir, n)
 			before := in.next
 			clockedBefore := in.clocked
-			if tn := in.routeClock(f); tn != "" {
-				// keep the import of package time used whatever else the file does with it
+			for _, kp := range in.routeClock(f) {
+				// keep the import used whatever else the file does with it
 				f.Decls = append(f.Decls, &ast.GenDecl{Tok: token.VAR, Specs: []ast.Spec{&ast.ValueSpec{Names: []*ast.Ident{ast.NewIdent("_")},
-					Values: []ast.Expr{&ast.SelectorExpr{X: ast.NewIdent(tn), Sel: ast.NewIdent("Nanosecond")}}}}})
+					Values: []ast.Expr{&ast.SelectorExpr{X: ast.NewIdent(kp[0]), Sel: ast.NewIdent(kp[1])}}}}})
 			}
 			for _, d := range f.Decls {
 				fd, ok := d.(*ast.FuncDecl)
